@@ -60,8 +60,8 @@ CHECKS.update({
 
 CHECKS.update({
  "C20": dict(level="model_checking", ref="DESIGN.md 4 C20",
-  text="bounded model checking of one reload of a running program in the real runtime (runtime.New's dispatcher goroutine, CompileAndRun, the VM goroutines, the real store) with lines sent on the real channel: the next line arrives at a solver-chosen point among the points at which the reloading goroutine releases a runtime or store lock, or after the reload; every line is counted by exactly one version, old before new, a kept declaration shows every line's effect in the store, the replaced version stops, and closing the input stops everything",
-  note="interleaving is explored for the reloading goroutine only, at its lock-release points (handleMu, programErrorMu, insertMu, searchMu); dispatcher and VMs run to quiescence after each line (one schedule); programs without patterns (an unconditional counter, scalar or with a constant label); one reload, 2..3 lines; natively replayed by rewriting the same Unlock call sites to call the harness hook"),
+  text="bounded model checking of one reload of a running program in the real runtime (runtime.New's dispatcher goroutine, CompileAndRun, the VM goroutines, the real store) with lines sent on the real channel: the next line arrives at a solver-chosen point among the points at which the reloading goroutine releases a runtime or store lock, or after the reload, and a VM that has received a line may be held back before it processes it; every line is counted by exactly one version, old before new, a kept declaration shows every line's effect in the store (a counter counts every line, a gauge ends with the last line's value), the replaced version stops, and closing the input stops everything",
+  note="interleaving is explored for the reloading goroutine only, at its lock-release points (handleMu, programErrorMu, insertMu, searchMu); dispatcher and VMs run to quiescence after each line except for up to 1 (thorough 2) hold-backs of a VM at the entry of ProcessLogLine; programs: an unconditional counter (scalar or with a constant label) and a gauge set from the line; one reload, 2..3 (thorough 4) lines; natively replayed by rewriting the same Unlock call sites to call the harness hook"),
  "C07": dict(level="model_checking", ref="DESIGN.md 4 C07",
   text="bounded symbolic execution of the real vm.New/ProcessLogLine/execute (Strptime, Settime, Timestamp), VM.ParseTime, the groupcache LRU memo and BaseDatum.stamp on compiled programs made of strptime/settime/plain blocks: after an arbitrary earlier line, one line with symbolic value bytes (8-digit dates under two layouts, 15-byte syslog stamps), symbolic settime operand (any int64), syslog-current-year on/off, zone none/UTC+9/UTC-3:30, symbolic wall clock; timestamp() and the stamps of data updated on the line equal the instant the property defines, a runtime error is raised iff the value does not parse, whatever was parsed before",
   note="time.Parse is an uninterpreted function for the returned instant, with exact axioms (validated against the native function, engine/timeparse_test.go) for acceptance, year, nanosecond and is-zero-instant for layouts built from 2006 01 02 _2 15 04 05 Jan; Year/AddDate uninterpreted with native refinement of counterexamples; one listed known finding (a value parsing to the reserved zero instant reads as unset) witnessed by a concrete job"),
